@@ -295,6 +295,7 @@ class AppTracker(object):
         self.small_by_seq = {}       # (id(sending conn), message seq) -> send record of a payload too short for an id
         self.counter = 0
         self.c = world.counters
+        self.raising_callbacks = False
         self.endpoint_accepted = set()        # payload ids / (id(sending conn), msgseq) the peer ENDPOINT has accepted (queued for its application)
         self._inq = 0
         world.deliver_hooks.append(self.on_deliver)
@@ -341,7 +342,7 @@ class AppTracker(object):
             else:
                 payload = self._small(length)
         pid = payload_id(payload)
-        rec = {"id": pid, "side": side, "sender": sender, "len": len(payload), "retry": int(retry), "api": api,
+        rec = {"n": self.counter, "id": pid, "side": side, "sender": sender, "len": len(payload), "retry": int(retry), "api": api,
                "t": w.clock.now, "payload": payload, "cb": [], "with_cb": with_cb, "refused": None,
                "conn": conn, "status_at_send": getattr(conn.status, "value", None) if conn is not None else None}
         if assume_open:
@@ -360,6 +361,10 @@ class AppTracker(object):
                     e.callbacks_n += 1
                 if extra_cb is not None:
                     extra_cb(value)
+                if self.raising_callbacks and _rec["n"] % 5 == 2:
+                    # an application callback that fails (after it has taken note of the result)
+                    self.c.inc("callbacks_raised")
+                    raise RuntimeError("seeded failure inside a send callback")
         if raw_cb is not None:
             cb = raw_cb
             rec["with_cb"] = False
@@ -387,6 +392,7 @@ class AppTracker(object):
             seq1 = int(conn.seq_message)
             rec["nmsgs"] = ring_diff(seq1, seq0) if seq1 != seq0 else 0
             rec["msgseq_first"] = ring(seq0 + 1) if rec["nmsgs"] else None
+            rec["fragmented"] = rec["nmsgs"] > 1         # decided by the MTU in force at send() time
             rec["frag_id"] = int(conn.seq_fragment) if rec["nmsgs"] > 1 else None
         if pid is not None:
             self.sends[pid] = rec
@@ -462,7 +468,27 @@ class AppTracker(object):
             self.double_delivery(rec, lst, conn)
 
     # classification hooks (set by the property modules)
-    def classify_double(self, conn, seqnum=None):
+    def _note_late(self, e):
+        """message seqs that were processed although they were > 256 behind the receiver's newest at their turn (fresh genuine
+        datagram): the only way the open finding F2 can deliver something twice"""
+        ctx = getattr(e, "last_recv", None)
+        if not ctx or not ctx["genuine"] or ctx["again"] or not ctx["msg_top"]:
+            return
+        late = getattr(e, "late_msgs", None)
+        if late is None:
+            late = e.late_msgs = set()
+        top = ctx["msg_top"]
+        for s_ in ctx["msgseqs"]:
+            d = ring_diff(top, s_)
+            if d > 256:
+                late.add(int(s_))
+            if d < 0:
+                top = s_
+
+    def recv_judged(self, e):
+        self._note_late(e)
+
+    def classify_double(self, conn, seqnum=None, rec=None):
         """known mechanism (finding): the second delivery arrived in a FRESH datagram built by the honest sender
         (a retransmission, not a replayed/duplicated datagram) carrying a message whose sequence number was more
         than 256 behind the receiver's newest - outside the duplicate-message window"""
@@ -482,7 +508,15 @@ class AppTracker(object):
                 if behind[int(seqnum)] > 256:
                     return "retransmission-older-than-message-window"
             elif any(d > 256 for d in behind.values()):
-                return "retransmission-older-than-message-window"     # the completing fragment of a fragmented message
+                # the completing fragment of a fragmented message.  F2 re-delivers a fragmented message only if EVERY one of its
+                # fragments arrived again beyond the window (a fresh reassembly context is filled from nothing); a second
+                # delivery after fewer is something else
+                self._note_late(e)
+                if rec is not None and rec.get("nmsgs") and rec.get("msgseq_first"):
+                    need = {(rec["msgseq_first"] - 1 + k) % 65535 + 1 for k in range(rec["nmsgs"])}
+                    if not need <= getattr(e, "late_msgs", set()):
+                        return None
+                return "retransmission-older-than-message-window"
         return None
 
     def _window_miss(self, conn, seqnum):
@@ -495,7 +529,7 @@ class AppTracker(object):
                         "256-message window, yet it was delivered again" % (int(seqnum), ctx["msg_top"]))
 
     def double_delivery(self, rec, lst, conn=None):
-        mech = self.classify_double(conn, lst[-1][2]) if conn is not None else None
+        mech = self.classify_double(conn, lst[-1][2], rec) if conn is not None else None
         if conn is not None and mech is None:
             self._window_miss(conn, lst[-1][2])
         self.report("C04", mech or "delivered-twice", lambda: "message %r (%d bytes, retry %d) delivered %d times to the %s application at t=%s" % (
@@ -503,7 +537,7 @@ class AppTracker(object):
 
     def _classify_corruption(self, rec, payload):
         from mpgameserver.connection import Packet
-        if rec["len"] > Packet.MAX_PAYLOAD_SIZE:
+        if rec.get("fragmented", rec["len"] > Packet.MAX_PAYLOAD_SIZE):
             return "fragmented-message-corrupted"
         return "message-corrupted"
 
@@ -658,6 +692,9 @@ class RecvMonitor(object):
         self.c.inc("recv_genuine")
         e.last_recv["genuine"] = True
         e.last_recv["msgseqs"] = [m[0] for m in dec.msgs]
+        e.last_recv["again"] = bool(res) and (e.unwrap_peer(dec.seq) in e.acc)
+        if res:
+            self.tap.fan("recv_judged", e)
         if res and snap0 != snap1:
             self.c.inc("recv_genuine_changed_state")
         u = e.unwrap_peer(dec.seq)
